@@ -230,6 +230,20 @@ def param_programs():
         return m
     yield ("params/signature-like-parameter-names", signature_like_param_names)
 
+    # module literals: repeated texts, empty text, order
+    def repeated_literals():
+        m = h.Module(name="PLits")
+        m.a = h.Port()
+        m.r = h.R(r=1)(p=m.a, n=m.a)
+        for t in (".option a", ".option b", ".option a", "", ".option a", "* c", ""):
+            m.literals.append(h.Literal(t))
+        top = h.Module(name="PLitsTop")
+        top.s = h.Signal()
+        top.i = m(a=top.s)
+        top.literals.extend([h.Literal("x"), h.Literal("x")])
+        return top
+    yield ("params/repeated-module-literals", repeated_literals)
+
     # modules NAMED with dots by hand: doubled, leading and trailing dots, a lone dot
     def dotted_module_names():
         top = h.Module(name="DottedNamesTop")
